@@ -19,6 +19,7 @@ KEY_MPLEX = "putdata/mplex/unequal-spf/tests-B[i]-copies-C[i*spfB/spfA]"
 KEY_HERE_OOP = "putdata/GD_HERE/out-of-place-encoding/position-is-read-side"
 KEY_HERE_SIE = "putdata/GD_HERE/sie/position-is-last-sample-written"
 KEY_OOP_READ = "getdata-after-putdata/out-of-place-encoding/old-file-open/read-restarts-empty-temporary"
+KEY_BZ2_EXTRA = "putdata/bzip2/overwrite-then-write-past-end/extra-zero-samples-appended"
 KEY_SIE_STALE = "putdata/sie/write-at-current-position-after-unflushed-append/stale-fstat-size-truncates"
 KEY_SIE_ZEROLEN = "putdata/sie/overwrite-last-sample-of-one-sample-record-after-single-record-write/zero-length-record"
 
@@ -200,6 +201,14 @@ def main():
             off = rng.choice([0, 0, 1, 3])
             spf = rng.choice([1, 1, 2, 3])
             ops = gen_history(rng, t, enc, rng.randint(3, 9 if enc != "sie" else 12))
+            if enc in ("gzip", "bzip2", "lzma") and k % 2:
+                # keep clear of the read-with-pending-write defect so that the write path is judged strictly
+                o2 = []
+                for op in ops:
+                    if op[0] == "G" and (not o2 or o2[-1][0] != "F"):
+                        o2.append(("F",))
+                    o2.append(op)
+                ops = o2
             d = os.path.join(root, "h%d" % len(cases)); os.mkdir(d)
             with open(os.path.join(d, "format"), "w") as fh:
                 fh.write("/ENCODING %s\n%s\n/FRAMEOFFSET %d\na RAW %s %d\n" % (enc, gdlib.sex_directive(sex), off, NAMES[t], spf))
@@ -217,7 +226,8 @@ def main():
                     a = array_write(a, p, data, zero)
                     ml.append("P %d %s" % (p, gdlib.hexs([x for v in data for x in v])))
                 elif op[0] == "G":
-                    n = len(a) + 3
+                    # bzip2: no over-read (its reader returns stale bytes past the end: C02's subject)
+                    n = len(a) + 3 if enc != "bzip2" else max(1, len(a))
                     sc.append("get a %d %d 0 %d" % (t, off, n))
                     expect.append(("get", [x for v in a for x in v]))
                     ml.append("G 0 %d" % n)
@@ -237,17 +247,22 @@ def main():
             script += sc
             cods = [] if codec is None else ["oop", "oopdoc"] if codec == "oop" else ["sie", "siefix"] if codec == "sie" else [codec]
             mlines.append(["%s %d %s %d - ; %s" % (cd, t, sex, max(1, 64 // TSIZE[t]), " ; ".join(ml)) for cd in cods])
-    rc, out = vlib.sh([exe], inp=("\n".join(script) + "\n").encode(), timeout=2400)
-    res = out.rstrip("\n").split("\n")
-    if rc != 0 or len(res) != len(script):
-        # find the case at which the harness died, it is a failing input
-        k = 0
-        for c in cases:
-            if c["first"] <= len(res):
-                k = c
-        chk.violation("harness-crash", "gdrun stopped (rc=%d) after %d of %d lines; last case %s" % (rc, len(res), len(script), json.dumps(k["script"])[:600] if k else ""),
-                      {"kind": "crash", "case": k and {x: k[x] for x in ("t", "sex", "enc", "off", "spf", "script")}, "tail": out[-500:]}, found=True)
-        return chk.finish()
+    # one process per history, so that a crash (the SIE defects below can corrupt a file to the point
+    # where the reader overruns its buffer) is attributed to the history that caused it
+    from concurrent.futures import ThreadPoolExecutor
+
+    def run_case(c):
+        rc_, out_ = vlib.sh([exe], inp=("\n".join(c["script"]) + "\n").encode(), timeout=300)
+        return rc_, out_
+    with ThreadPoolExecutor(max_workers=vlib.NPROC) as ex_:
+        outs = list(ex_.map(run_case, cases))
+    res = []
+    for c, (rc_, out_) in zip(cases, outs):
+        lines_ = out_.rstrip("\n").split("\n")
+        c["crashed"] = (rc_ != 0 or len(lines_) != len(c["script"]))
+        c["crash_info"] = "rc=%d after %d of %d lines: %s" % (rc_, len(lines_), len(c["script"]), out_[-200:]) if c["crashed"] else ""
+        lines_ = (lines_ + ["(no output)"] * len(c["script"]))[:len(c["script"])]
+        res += lines_
     flat = [x for l in mlines for x in l]
     rc2, mout = vlib.sh([drv], inp=("\n".join(flat) + "\n").encode(), timeout=3000)
     Mflat = mout.rstrip("\n").split("\n") if flat else []
@@ -319,6 +334,8 @@ def main():
                 want = gdlib.enc_samples(t, sex, c["final"])
                 if payload != want:
                     bad = "final data %s, flat array layout %s" % (payload.hex()[:160], want.hex()[:160])
+                    if enc == "bzip2" and payload.startswith(want) and not any(payload[len(want):]) and len(payload) - len(want) <= 4 * TSIZE[t]:
+                        key = KEY_BZ2_EXTRA
             if not bad and others:
                 bad = "stray files left after close: %s" % others
         # the models
@@ -335,12 +352,25 @@ def main():
             mbad = "library reads %s / final %s ; model reads %s / final %s%s" % (
                 [gdlib.hexs(x)[:60] if x is not None else None for x in impl_gets][:4], payload.hex()[:120] if payload is not None else None,
                 [gdlib.hexs(x)[:60] for x in mg][:4], (mf or "")[:120], " (model write error)" if merr else "")
+        if c["crashed"]:
+            bad = "gdrun died: " + c["crash_info"]
+            key = "crash/%s" % enc
+        if bad and enc == "sie" and len(mo) > 1 and key != KEY_SIE_ZEROLEN:
+            # downstream of the stale-size defect (wrong data, a failed put, an unreadable empty file, a
+            # crash in the reader): the faithful model deviates from the repaired model, i.e. the stale
+            # fstat size was used and mattered, and the repaired model satisfies the oracle
+            dg, df, derr = mo[1]
+            exp2 = gdlib.sie_decode(t, sex, bytes.fromhex(df or ""))[1]
+            if mo[0] != mo[1] and dg == spec_gets and exp2 == c["final"]:
+                key = KEY_SIE_STALE
         if bad:
             if enc == "text" and t >= 10:
                 key = KEY_TEXTPAD
-            if enc in ("gzip", "bzip2", "lzma") and agree == 0 and len(mo) > 1:
-                # the library does exactly what the code-faithful model does, and the documented
-                # behaviour (finish before reading) would have satisfied the oracle: the recorded defect
+            if enc in ("gzip", "bzip2", "lzma") and len(mo) > 1 and mo[0] != mo[1] and key != KEY_BZ2_EXTRA:
+                # the history reads through a handle with a pending out-of-place write while the old file is
+                # open (the code-faithful model deviates from the documented behaviour there), and the
+                # documented behaviour (finish before reading) satisfies the oracle: the recorded defect.
+                # (what exactly is lost depends on the codec's seek on a write handle)
                 dg, df, derr = mo[1]
                 if dg == spec_gets and df == gdlib.enc_samples(t, sex, c["final"]).hex():
                     key = KEY_OOP_READ
@@ -371,6 +401,39 @@ def main():
         chk.violation(KEY_TEXTPAD, "text COMPLEX128: after a write at frame 2 of an empty field the whole field reads back as '%s' (expected '%s'); a.txt = %r" % (
             r[2], want, open(os.path.join(d, "a.txt"), "rb").read()[:60]), {"kind": "impl-vs-spec", "script": ["format: /ENCODING text ; a RAW COMPLEX128 1",
                                                                                                    "put a COMPLEX128 frame 2: 1+2i 3+4i", "get a 0..10"], "got": r[2], "want": want})
+
+    # ---------------------------------------------------------------- recorded witnesses, replayed on every run
+    def replay(name, enc, tname, lines, getline, want, key, what):
+        d_ = os.path.join(root, name); os.mkdir(d_)
+        open(os.path.join(d_, "format"), "w").write("/ENCODING %s\na RAW %s 1\n" % (enc, tname))
+        rc_, out_ = vlib.sh([exe], inp=("open %s rw\n%s\nclose\n" % (d_, "\n".join(lines))).encode(), timeout=120)
+        r_ = out_.strip().split("\n")
+        chk.cov["evaluations"] += 1
+        raw_ = gdlib.read_field_file(d_, "a", enc)
+        try:
+            pay_ = gdlib.container_decode(enc, raw_) if raw_ is not None else b""
+        except Exception:
+            pay_ = b"<undecodable>"
+        got_ = r_[getline] if getline is not None and len(r_) > getline else ""
+        return d_, r_, pay_, got_
+    d_, r_, pay_, got_ = replay("w-oop", "gzip", "UINT8", ["put a 1 0 0 3 1 2 3", "put a 1 0 1 1 9", "get a 1 0 0 9", "get a 1 0 0 9"], 4, None, None, None)
+    if got_ != "get 3 0 1 9 3" or pay_ != bytes([1, 9, 3]):
+        chk.violation(KEY_OOP_READ, "gzip: put 1 2 3 at 0; put 9 at 1; get; get; close: second read gives '%s' (expected 'get 3 0 1 9 3'), a.gz then holds %s (expected 010903)" % (got_, pay_.hex()),
+                      {"kind": "impl-vs-spec", "script": r_, "final": pay_.hex()})
+    d_, r_, pay_, got_ = replay("w-stale", "sie", "UINT8", ["put a 1 0 0 2 1 0", "put a 1 0 2 3 0 0 1", "put a 1 0 4 1 0", "get a 1 0 0 8"], 4, None, None, None)
+    if got_ != "get 5 0 1 0 0 0 0":
+        chk.violation(KEY_SIE_STALE, "sie: put 1 0 at 0; put 0 0 1 at 2; put 0 at 4: the field reads back as '%s' (expected 'get 5 0 1 0 0 0 0'); a.sie = %s" % (got_, pay_.hex()),
+                      {"kind": "impl-vs-spec", "script": r_, "final": pay_.hex()})
+    d_, r_, pay_, got_ = replay("w-zlen", "sie", "UINT8", ["put a 1 0 0 2 1 2", "put a 1 0 1 1 3", "put a 1 0 1 1 4", "get a 1 0 0 5"], 4, None, None, None)
+    recs_, exp_, inc_ = gdlib.sie_decode(1, "l", pay_)
+    if not inc_ or exp_ != [1, 4]:
+        chk.violation(KEY_SIE_ZEROLEN, "sie: put 1 2 at 0; put 3 at 1; put 4 at 1: a.sie record ends %s are not strictly increasing (expands to %s)" % ([e for e, _ in recs_], exp_),
+                      {"kind": "impl-vs-spec", "script": r_, "final": pay_.hex()})
+    d_, r_, pay_, got_ = replay("w-bz2", "bzip2", "UINT32", ["put a 5 0 0 4 1 3 1 0", "flush a", "put a 5 0 1 1 ffffffff", "put a 5 0 9 1 80000000"], None, None, None, None)
+    want_ = gdlib.enc_samples(5, "l", [1, 0xffffffff, 1, 0, 0, 0, 0, 0, 0, 0x80000000])
+    if pay_ != want_:
+        chk.violation(KEY_BZ2_EXTRA, "bzip2: field 1 3 1 0; put ffffffff at 1; put 80000000 at 9; close: a.bz2 holds %d bytes %s (expected %d bytes)" % (len(pay_), pay_.hex(), len(want_)),
+                      {"kind": "impl-vs-spec", "script": r_, "final": pay_.hex()})
 
     # ---------------------------------------------------------------- GD_HERE sequential writes
     for enc in ENCS:
